@@ -52,41 +52,37 @@ theorem abs_slot_spec (dec : Kind → Val → Bool) (ws : List (AKey × Val)) (k
   cases lastWrite k none ws <;> rfl
 
 /-!
-### Open item on the unchanged tree
+### Metadata read-back
 
-Full statement wanted by C18: *metadata, signer certificate and locations read back equal to what was written* for every
-value. The store part holds for every value the deserializer accepts (`metadata_readback_partial`, and through
-`map_refines`/`ldb_refines` on both backends). It fails for the serializer itself on one value shape: a `CRLMetaInfo`
-whose `NextUpdate` lies outside 1950..2049 is written as GeneralizedTime under the implicit tag [0] and read as UTCTime,
-so `GetCRLMetaInfo` returns an error (`metadata_readback_counterexample`; harness signature
-`C18 serializer-cannot-read-back-own-output type=meta`, listed in known_findings.json; the year rule of the mini-model is
-diffed against the real serializer on every run).
+C18: *metadata, signer certificate and locations read back equal to what was written*. The store part holds for every
+value the deserializer accepts (`metadata_readback`, and through `map_refines`/`ldb_refines` on both backends). The
+serializer's own part concerns one value shape: a `CRLMetaInfo` whose `NextUpdate` lies outside 1950..2049 is written as
+GeneralizedTime under the implicit tag [0]; `DeserializeMetaInfo` reads such a value through its GeneralizedTime fallback
+(fact `metaGeneralizedFallback`, regenerated from asn1serializer.go; the year rule of the mini-model is diffed against the
+real serializer for the years 0, 1..9999 on every run). Before the repair (known_findings.json, `fixed`) the value was
+stored but unreadable.
 -/
 
 /-- Whatever was written last to a slot is read back unchanged, provided the deserializer accepts it. -/
-theorem metadata_readback_partial (dec : Kind → Val → Bool) (ws : List (AKey × Val)) (k : AKey) (v : Val)
+theorem metadata_readback (dec : Kind → Val → Bool) (ws : List (AKey × Val)) (k : AKey) (v : Val)
     (hlast : lastWrite k none ws = some v) (hdec : dec k.kind v = true) :
     (Abs.empty.fill ws).slot dec k = some v := by
   rw [abs_slot_spec, hlast]
   simp [hdec]
 
-/-- The serializer's part of the partial statement: `NextUpdate` absent or within 1950..2049 is readable ... -/
-theorem meta_nextUpdate_readable_partial (y : Option Nat) (h : ∀ year, y = some year → 1950 ≤ year ∧ year < 2050) :
-    metaNextUpdateReadable y = true := by
+/-- The serializer's part: every `NextUpdate` (absent, UTCTime years, GeneralizedTime years) is read back. -/
+theorem meta_nextUpdate_readable (y : Option Nat) : metaNextUpdateReadable y = true := by
   cases y with
   | none => rfl
-  | some year => simp [metaNextUpdateReadable, marshalTimeForm, h year rfl]
+  | some year => simp [metaNextUpdateReadable, Generated.Store.metaGeneralizedFallback]
 
-/-- ... and a value outside is not: written, then unreadable on both backends. -/
-theorem metadata_readback_counterexample :
-    metaNextUpdateReadable (some 2050) = false ∧
-    ∀ (dec : Kind → Val → Bool) (v : Val), dec .minfo v = false →
-      (Abs.empty.fill [(.minfo, v)]).slot dec .minfo = none ∧
-      (MapStore.new.fill [(.minfo, v)]).slot dec .minfo = none := by
-  refine ⟨by decide, fun dec v hv => ⟨?_, ?_⟩⟩
-  · rw [abs_slot_spec]
-    simp [lastWrite, AKey.kind, hv]
-  · simp [MapStore.new, MapStore.fill, MapStore.put, MapStore.slot, MapStore.rawGet, aget, AKey.kind, hv]
+/-- What the fallback is needed for: without it exactly the years outside 1950..2049 would be unreadable. -/
+theorem meta_nextUpdate_form (year : Nat) :
+    (marshalTimeForm year == .utc) = decide (1950 ≤ year ∧ year < 2050) := by
+  unfold marshalTimeForm
+  by_cases h : 1950 ≤ year ∧ year < 2050 <;> simp [h]
+
+example : metaNextUpdateReadable (some 2050) = true ∧ marshalTimeForm 2050 = .generalized := by decide
 
 /-- Replace is replace, not merge: after `replace ws` nothing of the earlier content is visible. -/
 theorem replace_discards (dec : Kind → Val → Bool) (a : Abs) (ws : List (AKey × Val)) :
